@@ -208,11 +208,26 @@ pub fn operation(p: &mut Parser<'_>, mut skip: Skip) -> Result<Option<Skip>> {
             stack.push((open.clone(), priority, extra));
         }
 
-        while let Some(prev) = stack.last_mut() {
+        while let Some(prev) = stack.last() {
             match priority.cmp(&prev.1) {
                 Ordering::Less => {
                     p.close_at(&prev.0, OPERATION)?;
-                    *prev = (prev.0.clone(), priority, extra);
+
+                    // The closed operation is an operand of the enclosing
+                    // one if that binds at least as tightly as the new
+                    // operator, otherwise it starts a new operation.
+                    match stack.len().checked_sub(2).map(|n| stack[n].1) {
+                        Some(outer) if outer >= priority => {
+                            stack.pop();
+                        }
+                        _ => {
+                            if let Some(prev) = stack.last_mut() {
+                                prev.1 = priority;
+                                prev.2 = extra;
+                            }
+                        }
+                    }
+
                     continue;
                 }
                 Ordering::Greater => {
